@@ -162,7 +162,10 @@ where
     }
 
     pub(crate) fn contains_key(&self, key: &Key) -> bool {
-        self.map.contains_key(key)
+        // Expired entries are only removed on insertion.
+        self.map
+            .get(key)
+            .is_some_and(|element| element.expires > Instant::now())
     }
 }
 
